@@ -152,7 +152,7 @@ def setup_engine(world, reg, qual) -> tuple[Engine, State, dict]:
                 st.set_fld("cell:" + n, st.envref, v.t)
     if spec.check_guarantee:
         for entry in reg.invariants:
-            st.assume(entry[1](HeapView(st.heap)))
+            eng.assume_invariant(st, entry, HeapView(st.heap))
     st.seg = dict(st.heap)
     return eng, st, args
 
@@ -191,7 +191,7 @@ def verify_function(world, reg, qual) -> dict:
                 eng.segment_end(o.st, "exit")
                 F = Frame(eng, entry, o.st, args, result=val)
                 F.ghost = spec.ghost_outputs(eng, o.st)
-                for (name, f) in spec.ensures(F):
+                for (name, f) in list(spec.ensures(F)) + list(spec.local_ensures(F)):
                     eng.oblige(o.st, "post", name, f)
                 check_frame(eng, spec, entry, o.st, "post")
             else:
@@ -202,7 +202,7 @@ def verify_function(world, reg, qual) -> dict:
                 F.ghost = spec.ghost_outputs(eng, o.st)
                 if not spec.may_raise:
                     eng.oblige(o.st, "exc", "never-raises", z3.BoolVal(False))
-                for (name, f) in spec.raises(F):
+                for (name, f) in list(spec.raises(F)) + list(spec.local_raises(F)):
                     eng.oblige(o.st, "exc", name, f)
                 check_frame(eng, spec, entry, o.st, "exc")
         res["paths"] = {"return": n_ret, "raise": n_exc}
@@ -233,6 +233,22 @@ def verify_function(world, reg, qual) -> dict:
 
 def check_frame(eng, spec, entry: State, st: State, kind):
     """everything outside the declared `modifies` set is untouched (one obligation per exit path)"""
+    pw = spec.pure_when(Frame(eng, entry, entry, {k: v for k, v in entry.env.items()}))
+    if pw is not None:
+        # on `pure_when` paths nothing that existed at entry may change, whatever `modifies` says
+        x = z3.Const("x!pf", I)
+        eqs = []
+        for c in eng.comps:
+            if c == "alloc" or c.startswith("fld:cell:") or c in ("w_dict", "mycalls"):
+                continue
+            if st.heap[c] is entry.heap[c] or st.heap[c].eq(entry.heap[c]):
+                continue
+            if not z3.is_array(st.heap[c]) or st.heap[c].sort().domain() != I:
+                eqs.append(st.heap[c] == entry.heap[c])
+            else:
+                eqs.append(z3.ForAll([x], z3.Implies(z3.And(0 <= x, x < entry.heap["alloc"]),
+                                                     z3.Select(st.heap[c], x) == z3.Select(entry.heap[c], x))))
+        eng.oblige(st, "frame", "no-effect-when-pure", z3.Implies(pw, z3.And(*eqs) if eqs else z3.BoolVal(True)), kind)
     if spec.modifies == "rely" or spec.suspends:
         return
     eqs, names = [], []
@@ -274,15 +290,16 @@ def discharge_all(obls, axioms) -> list[dict]:
         ctx, ax, lock = workers[i % n]
         hyps = [h.translate(ctx) for h in ob.hyps]
         goal = ob.goal.translate(ctx)
-        jobs.append((ob, ctx, ax, hyps, goal, lock))
+        heavy = [h.translate(ctx) for h in ob.heavy]
+        jobs.append((ob, ctx, ax, hyps, goal, lock, heavy))
 
     nbad = [0]
 
     def run(j):
-        ob, ctx, ax, hyps, goal, lock = j
+        ob, ctx, ax, hyps, goal, lock, heavy = j
         with lock:
             # once a function has many undischarged obligations the rest get a short budget
-            r = discharge(ob, ctx, ax, hyps, goal, short=nbad[0] >= 8)
+            r = discharge(ob, ctx, ax, hyps, goal, short=nbad[0] >= 8, heavy=heavy)
             if r["status"] != "discharged":
                 nbad[0] += 1
             return r
@@ -293,6 +310,9 @@ def discharge_all(obls, axioms) -> list[dict]:
 def _solver(ctx, ax, hyps, extra, seed=0, timeout=None):
     s = z3.Solver(ctx=ctx)
     s.set("timeout", timeout or TIMEOUT_MS)
+    if os.environ.get("PYVC_SOLVE_EQS", "0") == "0":
+        # keep the heap-snapshot names: z3's equality solving would inline them into quantifier patterns
+        s.set("smt.solve_eqs", False)
     if seed:
         s.set("random_seed", seed)
     for h in ax:
@@ -304,15 +324,25 @@ def _solver(ctx, ax, hyps, extra, seed=0, timeout=None):
     return s
 
 
-def discharge(ob: Obl, ctx, ax, hyps, goal, short=False) -> dict:
+def discharge(ob: Obl, ctx, ax, hyps, goal, short=False, heavy=()) -> dict:
     t0 = time.time()
     out = {"id": ob.id, "kind": ob.kind, "path": ob.path, "uses": list(ob.uses), "expect": ob.expect}
     if ob.expect == "unsat":
         # negated goal with select-over-store expanded: exposes the ground terms the quantified hypotheses match on
         ng = z3.simplify(z3.Not(goal), expand_select_store=True)
-        s = _solver(ctx, ax, hyps, [ng], timeout=2000 if short else None)
-        r = s.check()
         backend = "z3-5.1(api)"
+        r = z3.unknown
+        if heavy:
+            # stage 1: light hypotheses only (dropping hypotheses is sound)
+            s = _solver(ctx, ax, hyps, [ng], timeout=2000 if short else TIMEOUT_MS // 2)
+            r = s.check()
+            if r == z3.sat:
+                r = z3.unknown          # a model of a weakened problem proves nothing
+            if r == z3.unknown:
+                hyps = list(hyps) + list(heavy)
+        if r == z3.unknown:
+            s = _solver(ctx, ax, hyps, [ng], timeout=2000 if short else None)
+            r = s.check()
         if r == z3.unknown and short:
             out["reason"] = s.reason_unknown() + " (short budget: earlier obligations of this function already failed)"
         elif r == z3.unknown:
